@@ -145,6 +145,9 @@ def judge_floats(res, job):
         if p[0] == "T":
             x = int(p[2]); v = x * unit
             if not p[3].startswith(("0x", "-0x")):
+                if p[3] in ("inf", "-inf") and nearest(v, m) is None:
+                    t["ood"] += 1  # the value is outside the finite range of the floating type
+                    continue
                 t["judged"] += 1; t["kinds"][p[3]] = t["kinds"].get(p[3], 0) + 1
                 viol(t, "to_float:" + p[3], {"in": "%d*%d^%d" % (x, radix, e), "exp": "a floating value", "obs": p[3]})
                 continue
